@@ -60,7 +60,7 @@ fn n_strategy(kmin: u32, kmax: u32, small: bool) -> BoxedStrategy<usize> {
 }
 
 fn recipe(n: BoxedStrategy<usize>, cap: u128, profiles: BoxedStrategy<Profile>) -> BoxedStrategy<Recipe> {
-    (n, alphabet(cap, 256), profiles, prop_oneof![3 => Just(Arr::Shuffled), 1 => Just(Arr::Sorted), 1 => (0u8..=10).prop_map(Arr::Runs), 2 => (any::<bool>(), 1u8..=8).prop_map(|(h, k)| Arr::Padded(h, k)), 1 => Just(Arr::Packed), 1 => Just(Arr::Periodic)], any::<u64>())
+    (n, alphabet(cap, 256), profiles, prop_oneof![3 => Just(Arr::Shuffled), 1 => Just(Arr::Sorted), 1 => (0u8..=10).prop_map(Arr::Runs), 2 => (any::<bool>(), 1u8..=9).prop_map(|(h, k)| Arr::Padded(h, k)), 1 => Just(Arr::Packed), 1 => Just(Arr::Periodic)], any::<u64>())
         .prop_map(|(n, alphabet, profile, arr, seed)| Recipe { n, alphabet, profile, arr, seed })
         .boxed()
 }
@@ -305,6 +305,7 @@ impl Prop for C15 {
             recipe: Recipe { n, alphabet: alpha.clone(), profile: Profile::Deep(k), arr, seed },
             tie_seed: seed, extra_capacity: 0, bits: None,
         };
+        #[allow(unused_mut)]
         let mut v = vec![
             mk(TreeKind::Hqwt256, ElemTy::U8, 1_318_810, 4, Arr::Shuffled, 2),
             mk(TreeKind::Hwt, ElemTy::U16, 300_000, 2, Arr::Shuffled, 3),
@@ -312,6 +313,15 @@ impl Prop for C15 {
             mk(TreeKind::Hqwt512, ElemTy::U8, 3_000_000, 4, Arr::Sorted, 4),
             mk(TreeKind::Hqwt256Pfs, ElemTy::U8, 2_500_000, 2, Arr::Padded(true, 7), 5),
         ];
+        // a dominant symbol (75 %) that fills the first three quarters of a 4M-symbol input and is
+        // rare afterwards: counting schemes that work block-wise must still see the global counts
+        for (kind, seed) in [(TreeKind::Hqwt256, 8u64), (TreeKind::Hwt, 10)] {
+            v.push(SpaceCase {
+                kind: SpKind::Tree(kind, ElemTy::U8), path: 0,
+                recipe: Recipe { n: 4_000_000, alphabet: alpha.clone(), profile: Profile::Geometric(2), arr: Arr::Padded(true, 9), seed },
+                tie_seed: seed, extra_capacity: 0, bits: None,
+            });
+        }
         if tier == Tier::Thorough {
             v.push(mk(TreeKind::Hwt, ElemTy::U8, 9_227_464, 2, Arr::Shuffled, 6));
             v.push(mk(TreeKind::Hwt, ElemTy::U8, 8_400_000, 2, Arr::Padded(true, 7), 7));
